@@ -568,7 +568,8 @@ const fn mul(a: u64, b: u64) -> u64 {
 #[inline(always)]
 #[allow(clippy::many_single_char_names)]
 fn inv(x: u64) -> u64 {
-    if x == 0 {
+    // zero can also be represented as M (e.g. a + (-a))
+    if x == 0 || x == M {
         return 0;
     };
 
